@@ -32,11 +32,11 @@ TABLE = {
     "Perturb_c04_sim": dict(SIM, PKinds="KLayout", MaxEdits=8, MinEdits=4),
     # C06: every catalogue variant (sweep: at most one non-default variant per program) with every single mutation of that statement
     "Perturb_c06_exec_quick": dict(BASE, MaxRich="= 1", MaxVar=9, UnitKinds="SubOnly", ConKinds="SweepCons", SpecKinds="Empty", SimpleV="SimpleAll", PKinds="KMut",
-                                   NameChoices="Set1", EndForms="Set1", Contains="FALSE", RichOnly="TRUE", DumpMod=97),
+                                   NameChoices="Set1", EndForms="Set1", Contains="FALSE", RichOnly="TRUE", DumpMod=157),
     "Perturb_c06_decl_quick": dict(BASE, MaxStmts=3, MaxRich="= 1", MaxVar=9, UnitKinds="SweepUnits", ConKinds="Empty", SpecKinds="Empty", DeclV="DeclAll", UseV="UseAll",
-                                   FormatV="FormatAll", PKinds="KMut", NameChoices="Set1", EndForms="Set1", Contains="FALSE", RichOnly="TRUE", DumpMod=23),
+                                   FormatV="FormatAll", PKinds="KMut", NameChoices="Set1", EndForms="Set1", Contains="FALSE", RichOnly="TRUE", DumpMod=41),
     "Perturb_c06_type_quick": dict(BASE, MaxStmts=4, MaxRich="= 1", MaxVar=9, UnitKinds="ModOnly", ConKinds="Empty", SpecKinds="AllSpec", CompV="CompAll", TbindV="TbindAll",
-                                   PKinds="KMut", NameChoices="Set1", EndForms="Set1", Contains="FALSE", RichOnly="TRUE", DumpMod=47),
+                                   PKinds="KMut", NameChoices="Set1", EndForms="Set1", Contains="FALSE", RichOnly="TRUE", DumpMod=79),
     "Perturb_c06_exec_thorough": dict(BASE, MaxRich="= 1", MaxVar=9, UnitKinds="SubOnly", ConKinds="SweepCons", SpecKinds="Empty", SimpleV="SimpleAll", PKinds="KMut",
                                       NameChoices="Set1", EndForms="Set1", Contains="FALSE", RichOnly="TRUE", DumpMod=5),
     "Perturb_c06_spec_thorough": dict(BASE, MaxStmts=4, MaxRich="= 1", MaxVar=9, UnitKinds="SweepUnits", ConKinds="Empty", SpecKinds="AllSpec", DeclV="DeclAll", UseV="UseAll",
